@@ -1067,7 +1067,7 @@ def minimise_c2(case, klass):
 def work_c2(task, col):
     lo, step = task["slice"]
     n = 0
-    for size in range(1, task["max_len"] + 1):
+    for size in range(task.get("min_len", 1), task["max_len"] + 1):
         for seq in itertools.permutations(C2_TYPES, size):
             n += 1
             if n % step != lo:
@@ -1406,13 +1406,21 @@ def run(ctx):
                           "dims": [d[0] for d in C1_DIMS]})
             tasks.append({"w": "c1", "slice": (lo, nc), "extra_k": 1, "loaders": lc4, "dims": c1q,
                           "skip_plain": True})
-        tasks.append({"w": "c2", "slice": (lo, nc), "max_len": ctx.pick(3, 4),
-                      "owners": ["node", "apex"] if q else ["node", "apex", "wild"], "loaders": lc})
+        if q:
+            tasks.append({"w": "c2", "slice": (lo, nc), "max_len": 3, "owners": ["node", "apex"],
+                          "loaders": lc})
+        else:
+            tasks.append({"w": "c2", "slice": (lo, nc), "max_len": 3, "owners": list(C2_OWNERS),
+                          "loaders": l_all})
+            tasks.append({"w": "c2", "slice": (lo, nc), "min_len": 4, "max_len": 4,
+                          "owners": ["node", "apex", "wild"], "loaders": lc4})
     tasks.append({"w": "r"})
     ctx.extra["c1_junk_kinds"] = JUNK_KINDS
     ctx.extra["c1_spelling_dims"] = c1dims
     ctx.extra["c2_types"] = C2_TYPES
-    ctx.extra["c2_max_sequence_length"] = ctx.pick(3, 4)
+    ctx.extra["c2_bounds"] = ("orders of <= 3 of 9 record kinds, owners node/apex, 4 loaders" if q else
+                              "orders of <= 3 of 9 record kinds x 4 owners x 8 loaders; orders of 4 x 3 owners "
+                              "x 4 loaders")
 
     ctx.rule = ("a: a case = (zone class, relativize, base SOA/NS variant, subset of the RRset pool, "
                 "style option point, output API); b/c1: (spelling option point, loader, relativize[, junk "
@@ -1517,8 +1525,9 @@ def work_r(task, col):
 # =========================================================================== mutants tried
 # (name, file, --old, --new, reported as); re-run each with
 #   tools/mutant.py C09 --file <file> --old '<old>' --new '<new>'
-# (old/new below are already in the unicode_escape form the tool expects).  All 24 are reported
-# by the quick tier on every run; none is reported on the unchanged tree.
+# (old/new below are already in the unicode_escape form the tool expects).  All 27 are reported
+# by the quick tier on every run; none is reported on the unchanged tree.  The repository's own
+# zone/tokenizer/generate tests pass on m5, m11, m15, m16, m18, m21, m22, m24 (not run for m25-m27).
 MUTANTS_TRIED = [
     ('m1-first-name-dup-not-reset', 'dns/zone.py',
      '                l = self[n].to_styled_text(style, n)\\n',
@@ -1616,4 +1625,16 @@ MUTANTS_TRIED = [
      '                    elif c == "$ORIGIN":\\n                        self.current_origin = self.tok.get_name()',
      '                    elif c == "$ORIGIN":\\n                        self.current_origin = self.tok.get_name()\\n                        self.last_name = self.current_origin',
      'C09/b/zone-differs/rdataset-extra/spelling=mid=1+own=1/zone'),
+    ('m25-dollar-ttl-skipped-for-zero', 'dns/zone.py',
+     '            if style.default_ttl is not None:\\n                l = f"$TTL',
+     '            if style.default_ttl:\\n                l = f"$TTL',
+     'C09/a/zone-differs/ttl/opts=default_ttl/...'),
+    ('m26-generate-replaces-first-reference-only', 'dns/zonefile.py',
+     '            name = lhs.replace(f"${lmod}", lzfindex)',
+     '            name = lhs.replace(f"${lmod}", lzfindex, 1)',
+     'C09/g/expansion-differs/plain'),
+    ('m27-owner-relative-to-zone-origin', 'dns/zonefile.py',
+     '                self.last_name = self.tok.as_name(token, self.current_origin)',
+     '                self.last_name = self.tok.as_name(token, self.zone_origin)',
+     'C09/b/zone-differs/name-missing/spelling=mid=1+rel=1/zone'),
 ]
